@@ -5,10 +5,10 @@ EXTENDS O2OFlatten, Json
 CONSTANTS MaxMembers, MaxGhosts, AllItems
 PathsDef == { <<>>, <<"a">>, <<"ab">>, <<"a","c">>, <<"a","c","d">>, <<"ab","e">> }
 GPathsDef == { <<"a">>, <<"a","c">>, <<"g">> }       \* ghosts in a node members also use, and in a node only ghosts use
-Items == {"none", "expr", "ren"}
+Items == {"none", "expr", "ren", "cded"}       \* cded: default #[child(zz)] written first + #[child(D| path)] dedicated to each counterpart
 VARIABLE in
 Init == \E gs \in UNION {[1..n -> GPathsDef] : n \in 0..MaxGhosts} : in = [ms |-> <<>>, gs |-> [j \in DOMAIN gs |-> [path |-> gs[j]]]]
-Add(p, it) == Len(in.ms) < MaxMembers /\ in' = [in EXCEPT !.ms = Append(@, [path |-> p, it |-> it])]
+Add(p, it) == Len(in.ms) < MaxMembers /\ (it = "cded" => p # <<>>) /\ in' = [in EXCEPT !.ms = Append(@, [path |-> p, it |-> it])]
 Next == \E p \in PathsDef, it \in Items : Add(p, it)
 Spec == Init /\ [][Next]_in
 \* items vary on every member only when AllItems; otherwise on the first member only (keeps the quick scope small)
